@@ -122,7 +122,8 @@ mask `sc 'y' i`; unrelated output key `sc 'x' i • G`.
 `<ver>` 1|2; `<rct>` `n` (no RctSigBase: version 1, or version 2 without inputs) | `0`..`6`;
 `<main>` = `g` (R = r·G) | `s<i>/<j>` (R = r·S'(i,j) of this wallet), optionally `+<k>` (k·T added to the published key);
 `<extra>` letters, one sub-field each, in order: `K` main key, `A` additional keys (one per output), `H` additional keys
-(first ⌊n/2⌋ only), `N` nonce 010203, `Q` unrelated tx pubkey, `B` unrelated additional list, `Z` byte 07 (unknown tag),
+(first ⌊n/2⌋ only), `S` additional keys one short (first n−1 only), `L` additional keys one too many (the n keys, then an
+unrelated one), `N` nonce 010203, `Q` unrelated tx pubkey, `B` unrelated additional list, `Z` byte 07 (unknown tag),
 `P` padding 000000; `<T>` a point of order 8; `<fill>` the 32 bytes used as output key of filler outputs;
 `<out>` = `g.<count>` (filler run) | `X` (unrelated valid key) | `<dest>.<deriv>.<tag>.<shift>.<amount>[.<corrupt>]` with
 dest `P` (this wallet's primary address) | `F` (foreign wallet) | `S<i>/<j>`; deriv `m` (main secret) | `a` | `a<k>` (own
@@ -130,7 +131,8 @@ secret, published as additional key, plus k·T) | `b<k>` (main secret, and the a
 key plus k·T: both keys address the output, the main key has priority); tag `t` right | `n` absent | wrong: `w` +1, `v` −1,
 `x` xor 0x80, `y` xor 0x01, `z` 0 (128 if the right tag is 0), `f` 255 (127 if the right tag is 255); shift: the position the sender used
 is index+shift; corrupt `t` (the output key is the honest one-time key PLUS the small-order point `<T>`: not ours) | `e` (ecdh amount bit 0) | `k` (legacy ecdh mask bit 0) | `c` (commitment bit 0) | `a` (RingCT output whose CLEAR amount field is
-non-zero, 77 + position: the reported amount must still be the opened one). -/
+non-zero, 77 + position: the reported amount must still be the opened one) | `0` / `1` / `L` (nothing is corrupted: in the legacy
+RingCT types the sender's mask is 0 / 1 / l−1 instead of a random one; with amount 0 and mask 0 the commitment is the identity). -/
 namespace Scen
 open Spec.Sender hiding Bytes
 open Spec.Amounts
@@ -205,6 +207,8 @@ def tagByte (c : Char) (right : UInt8) : Option UInt8 :=
   else if c == 'z' then some (if right == 0 then 128 else 0) else if c == 'f' then some (if right == 255 then 127 else 255)
   else some right
 def tagIsWrong (c : Char) : Bool := c == 'w' || c == 'v' || c == 'x' || c == 'y' || c == 'z' || c == 'f'
+/-- "corrupt" letters that corrupt nothing: the sender's mask (legacy types; the compact mask is derived) is forced to 0 / 1 / l−1 -/
+def forcedMask (c : Char) : Option Nat := if c == '0' then some 0 else if c == '1' then some 1 else if c == 'L' then some (Ed.l - 1) else none
 
 /-- what the sender writes for one output: (clear amount, key, tag, additional key, ecdh, commitment), and what the
 receiver is expected to report for it if it is recognised: (subaddress index, is-own-derivation, mask) -/
@@ -257,7 +261,8 @@ def buildOut (h : Hdr) (v : Nat) (S : Ed.Pt) (pos : Nat) (o : OutD) : Built :=
       | some k => enc (torsion h.T k (mainPoint h v S))
       | none => unrelatedAdd ()
     let k := derivationScalar refPrims (derivation refPrims secret d.view) n
-    let y := if compact h then compactMask refPrims k else sc h.seed 'y' pos
+    let y := if compact h then compactMask refPrims k else
+      match forcedMask r.corrupt with | some m => m | none => sc h.seed 'y' pos
     let C := enc (commitment refPrims specH y r.amount)
     let ecdh : Option Ecdh :=
       if legacy h then
@@ -272,7 +277,7 @@ def buildOut (h : Hdr) (v : Nat) (S : Ed.Pt) (pos : Nat) (o : OutD) : Built :=
       (match idx? with | some idx => inRange h idx | none => false)
     ⟨if ringct h then (if r.corrupt == 'a' then 77 + pos else 0) else r.amount, key, tag, addKey, ecdh, comm,
       if recognisable then idx?.map fun idx => (idx, r.own, y, C) else none,
-      ringct h && r.corrupt != '-' && r.corrupt != 'a' && r.corrupt != 't'⟩
+      ringct h && r.corrupt != '-' && r.corrupt != 'a' && r.corrupt != 't' && (forcedMask r.corrupt).isNone⟩
 
 def zipIdx {α} (l : List α) : List (Nat × α) := (List.range l.length).zip l
 
@@ -303,14 +308,16 @@ def build (h : Hdr) (outs : List OutD) : Tx :=
     | 'A' => 4 :: varintB n ++ addList.flatten
     | 'H' => 4 :: varintB (n / 2) ++ (addList.take (n / 2)).flatten
     | 'B' => 4 :: varintB n ++ ((List.range n).map fun i => enc (Ed.smul (sc h.seed 'b' i) G)).flatten
+    | 'S' => 4 :: varintB (n - 1) ++ (addList.take (n - 1)).flatten
+    | 'L' => 4 :: varintB (n + 1) ++ addList.flatten ++ enc (Ed.smul (sc h.seed 'b' n) G)
     | 'N' => [2, 3, 1, 2, 3]
     | 'Z' => [7]
     | 'P' => [0, 0, 0]
     | _ => []
   let firstKey := (h.extra.find? fun c => c == 'K' || c == 'Q').map fun c =>
     if c == 'K' then (mainKey, true) else (enc (Ed.smul (sc h.seed 'q' 0) G), false)
-  let addCover := match h.extra.find? fun c => c == 'A' || c == 'H' || c == 'B' with
-    | some 'A' => n | some 'H' => n / 2 | _ => 0
+  let addCover := match h.extra.find? fun c => c == 'A' || c == 'H' || c == 'B' || c == 'S' || c == 'L' with
+    | some 'A' => n | some 'L' => n | some 'H' => n / 2 | some 'S' => n - 1 | _ => 0
   ⟨bs, mainKey, (h.extra.map field).flatten, firstKey, addCover⟩
 
 /-- the expected result from the description alone -/
